@@ -716,12 +716,29 @@ impl GRLParser {
     /// (a literal never spans lines) is moved into a table and replaced by
     /// `MASK_START <index> MASK_END` - text without any GRL metacharacter or keyword.
     /// `unmask` restores the bodies where text leaves the parser.
+    /// A `MASK_START` that is already in the source text is moved into the table as well, so that
+    /// every `MASK_START` of the masked text was written here and `unmask` can never take source
+    /// text for a placeholder.
     fn mask_string_literals(text: &str) -> (String, Vec<String>) {
+        // text outside complete literals: copied as written, except for MASK_START
+        fn copy_unmasked(out: &mut String, literals: &mut Vec<String>, text: &str) {
+            for c in text.chars() {
+                if c == MASK_START {
+                    out.push(MASK_START);
+                    out.push_str(&literals.len().to_string());
+                    out.push(MASK_END);
+                    literals.push(c.to_string());
+                } else {
+                    out.push(c);
+                }
+            }
+        }
+
         let mut out = String::with_capacity(text.len());
         let mut literals = Vec::new();
         let mut chars = text.chars();
         while let Some(ch) = chars.next() {
-            out.push(ch);
+            copy_unmasked(&mut out, &mut literals, ch.encode_utf8(&mut [0; 4]));
             if ch == '"' || ch == '\'' {
                 let rest = chars.as_str();
                 match rest.find(|c| c == ch || c == '\n') {
@@ -737,11 +754,11 @@ impl GRLParser {
                     }
                     // not closed on its line: not a literal, kept as written
                     Some(end) => {
-                        out.push_str(&rest[..=end]);
+                        copy_unmasked(&mut out, &mut literals, &rest[..=end]);
                         chars = rest[end + 1..].chars();
                     }
                     None => {
-                        out.push_str(rest);
+                        copy_unmasked(&mut out, &mut literals, rest);
                         break;
                     }
                 }
